@@ -52,6 +52,10 @@ func bundleSchema() *gen.Schema {
 		str("flts", &gen.Arg{Name: "l", Type: gen.ListOf(gen.ListOf(named("Float"), false), false)}),
 		str("def", &gen.Arg{Name: "s", Type: named("String"), Default: gen.StrV("dflt")}, &gen.Arg{Name: "n", Type: named("Int"), Default: gen.IntV(7)}, &gen.Arg{Name: "c", Type: named("Color"), Default: gen.EnumV("GREEN")}, &gen.Arg{Name: "f", Type: named("Float")}),
 		str("two", &gen.Arg{Name: "a", Type: named("String")}, &gen.Arg{Name: "b", Type: named("String")}),
+		str("js2", &gen.Arg{Name: "j", Type: named("JSON")}),
+		str("idf2", &gen.Arg{Name: "id", Type: named("ID")}),
+		str("jss", &gen.Arg{Name: "l", Type: gen.ListOf(named("JSON"), false)}),
+		str("ids", &gen.Arg{Name: "l", Type: gen.ListOf(named("ID"), false)}),
 	}
 	obj := &gen.TypeDef{Name: "Obj", Kind: gen.Object}
 	obj.Fields = append(obj.Fields, common...)
@@ -64,7 +68,115 @@ func bundleSchema() *gen.Schema {
 	return s
 }
 
+// ---------------------------------------------------------------------------------------------
+// twin literals: literals of different kinds with the same spelling ("1" and 1, "null" and null,
+// "[]" and []) on arguments of one type that admits both (ID, custom scalars). Their spelling is
+// the point, so they are never re-spelled.
+
+var twinGroups = [][]func() *gen.Val{
+	{func() *gen.Val { return gen.StrV("1") }, func() *gen.Val { return gen.IntV(1) }},
+	{func() *gen.Val { return gen.StrV("1.5") }, func() *gen.Val { return gen.FloatV(1.5) }},
+	{func() *gen.Val { return gen.StrV("true") }, func() *gen.Val { return gen.BoolV(true) }},
+	{func() *gen.Val { return gen.StrV("false") }, func() *gen.Val { return gen.BoolV(false) }},
+	{func() *gen.Val { return gen.StrV("null") }, func() *gen.Val { return gen.Null() }},
+	{func() *gen.Val { return gen.StrV("[]") }, func() *gen.Val { return gen.ListV() }},
+	{func() *gen.Val { return gen.StrV("{}") }, func() *gen.Val { return gen.ObjV() }},
+	{func() *gen.Val { return gen.StrV("") }, func() *gen.Val { return gen.StrV("0") }, func() *gen.Val { return gen.IntV(0) }},
+}
+
+// twinValues draws 2-3 values, mostly from one group (same spelling, different kinds), in random
+// order. forID: only what an ID argument admits (strings, integers, null); nullable: null allowed.
+func twinValues(r *rand.Rand, forID, nullable bool) []*gen.Val {
+	for {
+		g := twinGroups[r.IntN(len(twinGroups))]
+		n := 2 + r.IntN(2)
+		var out []*gen.Val
+		for i := 0; i < n; i++ {
+			mk := g[i%len(g)]
+			if i >= len(g) && r.IntN(2) == 0 {
+				og := twinGroups[r.IntN(len(twinGroups))]
+				mk = og[r.IntN(len(og))]
+			}
+			out = append(out, mk())
+		}
+		ok := true
+		for _, v := range out {
+			switch v.Kind {
+			case gen.VNull:
+				ok = ok && nullable
+			case gen.VString, gen.VInt:
+			default:
+				ok = ok && !forID
+			}
+		}
+		if !ok {
+			continue
+		}
+		r.Shuffle(len(out), func(i, j int) { out[i], out[j] = out[j], out[i] })
+		// the string first at least half of the time: de-duplication looks at earlier extractions
+		if r.IntN(2) == 0 {
+			for i, v := range out {
+				if v.Kind == gen.VString {
+					out[0], out[i] = out[i], out[0]
+					break
+				}
+			}
+		}
+		return out
+	}
+}
+
+// twinFields: aliased fields carrying twin literals, in document order.
+func (b *bundleGen) twinFields(parent *gen.TypeDef) []*gen.FieldSel {
+	forID := b.r.IntN(3) == 0
+	vals := twinValues(b.r, forID, true)
+	for _, v := range vals {
+		b.fixed[v] = true
+	}
+	direct, other, list, objField := "js", "js2", "jss", "j"
+	argn := "j"
+	if forID {
+		direct, other, list, objField, argn = "idf", "idf2", "ids", "id", "id"
+	}
+	var out []*gen.FieldSel
+	switch b.r.IntN(6) {
+	case 0, 1: // the same field under different aliases
+		for _, v := range vals {
+			out = append(out, b.field(parent, direct, arg(argn, v)))
+		}
+	case 2: // different fields with the same argument type
+		for i, v := range vals {
+			out = append(out, b.field(parent, []string{direct, other}[i%2], arg(argn, v)))
+		}
+	case 3: // inside an input object field of that type
+		for i, v := range vals {
+			o := gen.ObjV(gen.ObjField{Name: objField, Val: v})
+			if i == 1 && b.r.IntN(2) == 0 {
+				o = gen.ObjV(gen.ObjField{Name: "nested", Val: gen.ObjV(gen.ObjField{Name: objField, Val: v})})
+			}
+			out = append(out, b.field(parent, "inp", arg("in", o)))
+		}
+	case 4: // inside a list / as a single item where a list is expected
+		single := b.r.IntN(2) == 0
+		for _, v := range vals {
+			if single && v.Kind != gen.VNull && v.Kind != gen.VList {
+				out = append(out, b.field(parent, list, arg("l", v)))
+			} else {
+				out = append(out, b.field(parent, list, arg("l", gen.ListV(v))))
+			}
+		}
+	default: // one list holding all of them next to the direct arguments
+		out = append(out, b.field(parent, list, arg("l", gen.ListV(vals...))))
+		for _, v := range twinValues(b.r, forID, true) {
+			b.fixed[v] = true
+			out = append(out, b.field(parent, direct, arg(argn, v)))
+		}
+	}
+	return out
+}
+
 type bundleGen struct {
+	fixed map[*gen.Val]bool
 	r     *rand.Rand
 	s     *gen.Schema
 	op    *gen.Op
@@ -263,7 +375,7 @@ func (b *bundleGen) matrixField(parent *gen.TypeDef) *gen.FieldSel {
 
 func buildBundle(r *rand.Rand, idx int) *opCase {
 	s := bundleSchema()
-	b := &bundleGen{r: r, s: s, op: &gen.Op{Kind: "query", Name: "Q"}, vals: map[string]*gen.Val{}}
+	b := &bundleGen{r: r, s: s, op: &gen.Op{Kind: "query", Name: "Q"}, vals: map[string]*gen.Val{}, fixed: map[*gen.Val]bool{}}
 	q, obj := s.Type("Query"), s.Type("Obj")
 	nLeaf := 6 + r.IntN(10)
 	for i := 0; i < nLeaf; i++ {
@@ -297,6 +409,25 @@ func buildBundle(r *rand.Rand, idx int) *opCase {
 		b.op.Sel = append(b.op.Sel, &gen.Sel{Field: f})
 	}
 	r.Shuffle(len(b.op.Sel), func(i, j int) { b.op.Sel[i], b.op.Sel[j] = b.op.Sel[j], b.op.Sel[i] })
+	// twin literals: inserted after the shuffle (their order is part of the shape), each at a random
+	// place behind the previous one, at the root or below obj
+	if idx%2 == 0 {
+		for k := 0; k < 1+r.IntN(2); k++ {
+			pos := 0
+			for _, f := range b.twinFields(q) {
+				pos += r.IntN(len(b.op.Sel) - pos + 1)
+				b.op.Sel = append(b.op.Sel[:pos], append([]*gen.Sel{{Field: f}}, b.op.Sel[pos:]...)...)
+				pos++
+			}
+		}
+		if r.IntN(3) == 0 {
+			o := b.field(q, "obj", arg("id", b.pInt()))
+			for _, f := range b.twinFields(obj) {
+				o.Sel = append(o.Sel, &gen.Sel{Field: f})
+			}
+			b.op.Sel = append(b.op.Sel, &gen.Sel{Field: o})
+		}
+	}
 	if len(b.op.Vars) == 0 && r.IntN(2) == 0 {
 		b.op.Name = ""
 	}
@@ -312,6 +443,7 @@ func buildBundle(r *rand.Rand, idx int) *opCase {
 		doc.Frags = append(doc.Frags, fr)
 	}
 	c := newCase(s, doc, b.op.Name, b.vals)
+	c.fixed = b.fixed
 	c.jsonStyle = idx % 4
 	c.spellAll(r, idx)
 	return c
@@ -385,6 +517,9 @@ func buildGenerated(r *rand.Rand, idx int) (*opCase, string) {
 		return nil, "union fragment in a non-union parent (open finding C01-F1)"
 	}
 	c := newCase(schema, doc, opName, vals)
+	if idx%2 == 0 {
+		c.addTwinsGenerated(r)
+	}
 	// the absent / null / value matrix for nullable variables
 	for _, vd := range c.mainOp().Vars {
 		if vd.Type.NonNull {
@@ -400,6 +535,74 @@ func buildGenerated(r *rand.Rand, idx int) (*opCase, string) {
 	c.jsonStyle = idx % 4
 	c.spellAll(r, idx)
 	return c, ""
+}
+
+// addTwinsGenerated appends, to the main operation of a generated case, aliased selections of a
+// root field that has an ID / custom scalar argument (all other arguments optional), carrying twin
+// literals.
+func (c *opCase) addTwinsGenerated(r *rand.Rand) {
+	op := c.mainOp()
+	rootName := c.schema.Query
+	if op.Kind == "mutation" {
+		rootName = c.schema.Mutation
+	}
+	root := c.schema.Type(rootName)
+	if root == nil || op.Kind == "subscription" {
+		return
+	}
+	type cand struct {
+		f *gen.Field
+		a *gen.Arg
+	}
+	var cands []cand
+	for _, f := range root.Fields {
+		for _, a := range f.Args {
+			cls := c.typeClass(a.Type.NamedType())
+			if cls != "ID" && cls != "scalar" {
+				continue
+			}
+			if a.Type.Elem != nil && a.Type.Elem.Elem != nil {
+				continue // nested lists: single-item coercion is another topic
+			}
+			ok := true
+			for _, o := range f.Args {
+				if o != a && o.Type.NonNull && o.Default == nil {
+					ok = false
+				}
+			}
+			if ok {
+				cands = append(cands, cand{f, a})
+			}
+		}
+	}
+	if len(cands) == 0 {
+		return
+	}
+	for k := 0; k < 1+r.IntN(2); k++ {
+		cd := cands[r.IntN(len(cands))]
+		isList := cd.a.Type.Elem != nil
+		itemNullable := !cd.a.Type.NonNull
+		if isList {
+			itemNullable = !cd.a.Type.Elem.NonNull
+		}
+		vals := twinValues(r, c.typeClass(cd.a.Type.NamedType()) == "ID", itemNullable)
+		wrap := isList && r.IntN(2) == 0
+		pos := 0
+		for i, v := range vals {
+			c.fixed[v] = true
+			av := v
+			if isList && (wrap || v.Kind == gen.VNull || v.Kind == gen.VList) {
+				av = gen.ListV(v)
+			}
+			fs := &gen.FieldSel{Alias: fmt.Sprintf("tw%d_%d", k, i), Name: cd.f.Name, Def: cd.f, Parent: rootName, Args: []*gen.ArgVal{{Name: cd.a.Name, Val: av}}}
+			if c.schema.IsComposite(cd.f.Type.NamedType()) {
+				fs.Sel = []*gen.Sel{{Field: &gen.FieldSel{Name: "__typename", Parent: cd.f.Type.NamedType()}}}
+			}
+			pos += r.IntN(len(op.Sel) - pos + 1)
+			op.Sel = append(op.Sel[:pos], append([]*gen.Sel{{Field: fs}}, op.Sel[pos:]...)...)
+			pos++
+		}
+	}
 }
 
 // ---------------------------------------------------------------------------------------------
@@ -548,6 +751,7 @@ func (p c15) Run(c *fw.Ctx, idx int) fw.Result {
 	fw.SetContext(map[string]any{"case_kind": kind, "sdl": sdl, "operation": text, "variables": vars})
 	res.Count("cases_"+kind, 1)
 	res.Count("leaves_generated", int64(len(oc.leaves)))
+	res.Count("twin_literals", int64(len(oc.fixed)))
 	nOmitted, nNull := 0, 0
 	for _, vd := range oc.mainOp().Vars {
 		v, ok := oc.vals[vd.Name]
